@@ -132,6 +132,18 @@ def catalogue(w: World, rng) -> list[dict]:
         G.op_add_user(f'u{tag}', f'u{tag}@x.test', 'pw123456'),
         G.op_edit_user(w.users['victim'], 'victim', f'changed{tag}@x.test', 'newpw123'),
         G.op_edit_user(w.users['user'], 'user', f'self{tag}@x.test'),
+        # the page sends the account's pk in the body as well as in the URL; a body that names the
+        # requester while the URL names somebody else must not redirect the authorisation test
+        dict(G.op_edit_user(w.users['victim'], 'victim', f'pk{tag}@x.test', 'newpw456'), name='edit-user-with-pk',
+             fields={**G.op_edit_user(w.users['victim'], 'victim', f'pk{tag}@x.test', 'newpw456')['fields'],
+                     'pk': w.users['victim']}),
+        dict(G.op_edit_user(w.users['victim'], 'victim', f'own{tag}@x.test', 'newpw789'), name='edit-user-body-names-requester',
+             fields={**G.op_edit_user(w.users['victim'], 'victim', f'own{tag}@x.test', 'newpw789')['fields'],
+                     'pk': '$SELF_PK'}),
+        dict(G.op_edit_user(w.users['admin'], 'admin', f'adm{tag}@x.test', 'newpw000', groups=('user', 'media', 'admin')),
+             name='edit-admin-body-names-requester',
+             fields={**G.op_edit_user(w.users['admin'], 'admin', f'adm{tag}@x.test', 'newpw000',
+                                      groups=('user', 'media', 'admin'))['fields'], 'pk': '$SELF_PK'}),
         G.op_delete_user(w.users['victim']),
     ]
     return ops
@@ -188,6 +200,11 @@ def run_replay(ctx: ShardCtx, res: ShardResult, w: World) -> None:
             for role in ROLES:
                 if (oi * len(ROLES) + ROLES.index(role) + rnd) % ctx.nshards != ctx.shard:
                     continue
+                if '$SELF_PK' in (op.get('fields') or {}).values():
+                    own = w.role_user_pk.get(role)
+                    if own is None:
+                        continue        # anonymous / guest have no account of their own to name
+                    op = dict(op, fields={k: (own if v == '$SELF_PK' else v) for k, v in op['fields'].items()})
                 before = w.obs.observe()
                 try:
                     r = execute(w.sessions[role], w.harvest[role], op)
@@ -316,6 +333,19 @@ def run_csrf(ctx: ShardCtx, res: ShardResult, w: World) -> None:
     from dlv.mgmt import Harvest
     rng = ctx.rng
     n = ctx.scale(12, 400)
+    # the modules that stamp and expire Token rows read the virtual clock, so that a history can span the
+    # lifetime of a used-token record (20 minutes) and more
+    import dashlive.server.requesthandler.csrf as csrf_mod
+    import dashlive.server.models.token as token_mod
+    saved = (csrf_mod.datetime, token_mod.datetime)
+    csrf_mod.datetime, token_mod.datetime = w.env.clock.proxy, w.env.clock.VDateTime
+    try:
+        _run_csrf(ctx, res, w, rng, n, Harvest)
+    finally:
+        csrf_mod.datetime, token_mod.datetime = saved
+
+
+def _run_csrf(ctx, res, w, rng, n, Harvest) -> None:
     for i in range(n):
         w.reset()
         a = w.sessions['media']
@@ -325,7 +355,13 @@ def run_csrf(ctx: ShardCtx, res: ShardResult, w: World) -> None:
         used: set[str] = set()
         history = []
         for step in range(rng.randrange(2, 6)):
-            kind = rng.choice(['use', 'reuse', 'cross-service', 'cross-cookie', 'tamper', 'use', 'after-logout'])
+            kind = rng.choice(['use', 'reuse', 'reuse-later', 'cross-service', 'cross-cookie', 'tamper', 'use', 'after-logout'])
+            later = 0
+            if kind == 'reuse-later':
+                # the same as a reuse, after the record of the first use has expired
+                kind, later = 'reuse', rng.choice([21 * 60, 3600, 25 * 3600, 20 * 60 + 1])
+                w.env.clock.advance(later)
+                res.count('csrf.reuse_after_record_lifetime')
             if kind in ('use', 'cross-service', 'cross-cookie', 'tamper', 'after-logout') or not issued:
                 service = 'files' if kind == 'cross-service' else 'streams'
                 tok = ha.token(service)
@@ -341,9 +377,9 @@ def run_csrf(ctx: ShardCtx, res: ShardResult, w: World) -> None:
                 token = unquote(token)
             canon = unquote(token)
             sender = a
-            expect_ok = (kind == 'use') and canon not in used
-            if kind == 'reuse':
-                expect_ok = False if canon in used else (t['service'] == 'streams')
+            # "accepted at most once": a token may be accepted when it was never ACCEPTED before (the server is
+            # free to refuse one that was merely presented), for its own service, with its own cookie, unmodified
+            expect_ok = kind in ('use', 'reuse') and t['service'] == 'streams' and canon not in used
             if kind == 'cross-cookie':
                 sender = b
             if kind == 'tamper':
@@ -373,7 +409,7 @@ def run_csrf(ctx: ShardCtx, res: ShardResult, w: World) -> None:
             accepted = 'Stream' in diff['tables']
             res.count('csrf.steps')
             res.case(f'csrf|{kind}')
-            history.append({'step': kind, 'status': r.status_code, 'accepted': accepted})
+            history.append({'step': kind if not later else f'{kind} {later} s later', 'status': r.status_code, 'accepted': accepted})
             if accepted:
                 res.count('csrf.accepted')
             if accepted and not expect_ok:
@@ -381,9 +417,9 @@ def run_csrf(ctx: ShardCtx, res: ShardResult, w: World) -> None:
                               f'history {history}: a CSRF token was accepted on step "{kind}"', {'csrf_history': history})
             if kind == 'use' and not accepted and canon not in used:
                 res.bucket('csrf_control_not_accepted', r.status_code)
-            # a token is spent once it was presented to the server in any spelling (a tampered
-            # variant is another token and does not spend the original)
-            used.add(canon)
+            # a token is spent once it was accepted, in any spelling (a tampered variant is another token)
+            if accepted:
+                used.add(canon)
             if kind == 'after-logout':
                 w.login_all()
                 a = w.sessions['media']
